@@ -411,6 +411,48 @@ fn fam_eq<const N: usize>(ctx: &Ctx, sq: SqFn<N>) {
     }
 }
 
+/// trait-level constants of the signed type (Constants / ConstZero / num_traits::Bounded-style routes) against two's complement
+fn fam_constants(ctx: &Ctx) {
+    if !ctx.want("int_constants") {
+        return;
+    }
+    ctx.seq("int_constants", "Int<1,2,3,4,8,16>", |l| {
+        macro_rules! consts {
+            ($n:literal) => {{
+                let ins: [&[u64]; 1] = [&[$n as u64]];
+                let mut cs = Case::new(l, P, "int_constants", concat!("Int<", $n, ">"), &ins);
+                cs.l.nontrivial += 1;
+                let mut max = vec![u64::MAX; $n];
+                max[$n - 1] = u64::MAX >> 1;
+                let mut min = vec![0u64; $n];
+                min[$n - 1] = 1 << 63;
+                let mut one = vec![0u64; $n];
+                one[0] = 1;
+                chk!(cs, "Int::MAX", &Out::v(&max), Out::v(&iw(&Int::<$n>::MAX)));
+                chk!(cs, "Int:Constants::MAX", &Out::v(&max), Out::v(&iw(&<Int<$n> as crypto_bigint::Constants>::MAX)));
+                chk!(cs, "NonZero<Int>::MAX", &Out::v(&max), Out::v(&iw(crypto_bigint::NonZero::<Int<$n>>::MAX.as_ref())));
+                cs.group();
+                chk!(cs, "Int::ONE", &Out::v(&one), Out::v(&iw(&Int::<$n>::ONE)));
+                chk!(cs, "Int:Constants::ONE", &Out::v(&one), Out::v(&iw(&<Int<$n> as crypto_bigint::Constants>::ONE)));
+                chk!(cs, "NonZero<Int>::ONE", &Out::v(&one), Out::v(&iw(crypto_bigint::NonZero::<Int<$n>>::ONE.as_ref())));
+                cs.group();
+                chk!(cs, "Int::ZERO", &Out::v(&vec![0u64; $n]), Out::v(&iw(&Int::<$n>::ZERO)));
+                chk!(cs, "Int:ConstZero::ZERO", &Out::v(&vec![0u64; $n]), Out::v(&iw(&<Int<$n> as crypto_bigint::ConstZero>::ZERO)));
+                cs.group();
+                chk!(cs, "Int::MIN", &Out::v(&min), Out::v(&iw(&Int::<$n>::MIN)));
+                cs.group();
+                chk!(cs, "Int::MINUS_ONE", &Out::v(&vec![u64::MAX; $n]), Out::v(&iw(&Int::<$n>::MINUS_ONE)));
+            }};
+        }
+        consts!(1);
+        consts!(2);
+        consts!(3);
+        consts!(4);
+        consts!(8);
+        consts!(16);
+    });
+}
+
 fn fam_prims(ctx: &Ctx) {
     if !ctx.want("int_from") {
         return;
@@ -492,6 +534,7 @@ fn main() {
     ctx.assume("limb values outside the stated alphabets are not explored; oracle = num-bigint BigInt");
     let ctx = &ctx;
     fam_prims(ctx);
+    fam_constants(ctx);
     fam_eq::<1>(ctx, sqw!(1));
     fam_eq::<2>(ctx, sqw!(2));
     fam_eq::<3>(ctx, sqw!(3));
